@@ -152,6 +152,7 @@ var groupNamesSA = []string{"windows", "default", "all", "containers"}
 var groupNamesDet = []string{"cis", "govulncheck", "weakcreds", "untested", "default", "all"}
 
 func TestC19(t *testing.T) {
+	// replay mode re-runs the whole (cheap, deterministic) enumeration
 	col := ev.Get("C19")
 	completed := false
 	defer func() { col.Flush(completed) }()
